@@ -67,6 +67,11 @@ def body(chk):
         n, p = 3 + j % 3, 2 + j % 2
         cases.append(dict(kind=("signal", "processed")[j % 2], sample=("C*8", "IU2")[j % 2], images=[("HH", None, n, p)], rpc=rpc,
                           seed=chk.seed + 20000 + j, fss=list(FSS), sels=[("all",), ("slice", 1, n, 1)], origin="huge-rpc"))
+    # a filesystem with transient faults: a read fails once (I/O error), with or without having consumed part of the request: the load
+    # may raise, it must never return other bytes than the file's (ImageIOEnv: result clause under "fault")
+    for j, (nth, consume) in enumerate([(1, 0.5), (2, 0.5), (2, 0.0), (3, 0.25), (1, 1.0), (4, 0.5)]):
+        cases.append(dict(kind=("signal", "processed")[j % 2], sample=("C*8", "IU2")[j % 2], images=[("HH", None, 16, 3)], rpc=4, seed=chk.seed + 21000 + j,
+                          fss=["vtrace"], sels=[("all",), ("slice", 8, 16, 1), ("slice", 1, 15, 3)], origin="transient-fault", flaky_load=dict(nth=nth, consume=consume)))
     # one batched TLC layout export for everything the workers need
     L.tables()
     want = [dict(L.SMALL_LEADER), dict(L.SMALL_LEADER, nmap=0), dict(file="volume", nfp=3), dict(file="trailer", nlow=0, lens=[])]
@@ -95,6 +100,8 @@ def body(chk):
                 chk.violation(f"shape:{gkey}", f"declared shape/dtype {im.get('shape')} {im.get('dtype')} != header {[n, p]} {want_dtype}",
                               {"case": c, "run": run["fs"]})
             for ld in im["loads"]:
+                if ld["outcome"] == "error" and ld.get("fault_fired"):
+                    continue  # the injected fault was reported to the caller
                 if ld["outcome"] != "equal":
                     special = "special-bits" if (c["sample"] == "C*8" and ld["msg"] and "bits" in ld["msg"]) else "values"
                     chk.violation(f"pixels:{special}:{c['sample']}:{gkey if special == 'values' else ''}",
